@@ -6,11 +6,14 @@ import sys
 import numpy as np
 
 EXPR = "x * 2 + 1"
+EMPTY = "ne"      # the abstract value of named("", f): the model's "" means `no name`
 
 
 def _abstract_name(name, base):
     if name is None:
         return ""
+    if name == "":
+        return EMPTY      # an explicit empty name is a name
     if base == "def" and name == "fbase":
         return "auto:def"
     if base == "str" and name == EXPR:
@@ -48,7 +51,7 @@ def gen_ops(rng):
             order.insert(rng.randrange(len(order) + 1), rng.choice(["S", "C"]))  # idempotence
         wrapped = False
         for o in order:
-            ops.append({"op": o, "s": s, "n": "n1"} if o == "N" else {"op": o, "s": s})
+            ops.append({"op": o, "s": s, "n": rng.choice(["n1", "n1", "n1", EMPTY])} if o == "N" else {"op": o, "s": s})
             wrapped = True
             for _ in range(rng.choice([0, 0, 1, 2, 3])):
                 ops.append({"op": "Call", "s": s, "arg": rng.choice([1, 2, 3, 4, 5, 6, 5, 6, 7, 8, 9, 1, 7, 10, 10, 1]), "fresh": rng.random() < 0.5})
@@ -84,7 +87,7 @@ def record_one(job):
             elif op["op"] == "C":
                 slots[s] = cached(slots[s])
             elif op["op"] == "N":
-                slots[s] = named(op["n"], slots[s])
+                slots[s] = named("" if op["n"] == EMPTY else op["n"], slots[s])
             elif op["op"] == "Call":
                 a = args[op["arg"]]
                 if op.get("fresh") and isinstance(a, np.ndarray):
